@@ -46,7 +46,9 @@ def gen_recipe(rng: Rng, tier: str, idx: int) -> dict:
     """Draw one case. Swarm style: each case draws its own mix."""
     n = rng.weighted([(0, 1), (1, 3), (2, 4), (3, 4), (4, 3), (5, 2), (7, 1), (10, 1)])
     sizes = SIZE_CLASSES_THOROUGH if tier == "thorough" else SIZE_CLASSES_QUICK
-    big_budget = 1 if tier == "thorough" else 0
+    big_budget = 1 if (tier == "thorough" or idx % 24 == 7) else 0
+    if big_budget and tier != "thorough":
+        sizes = sizes + [1048576 + 8, 1048576 + 8]  # >= 1 MiB: the writer pads the offset to a 64 KiB boundary
     allow_ext = rng.chance(0.5)
     allow_sub = rng.chance(0.4)
     inits = []
@@ -87,11 +89,13 @@ def gen_recipe(rng: Rng, tier: str, idx: int) -> dict:
             kind = "np"
         where = rng.weighted(WHERE) if allow_sub else "main"
         e = {
-            "name": rng.choice(["w", "weight", "p.layer", "b", "mod/param", "t"]) + f"_{i}",
+            "name": rng.choice(["w", "weight", "p.layer", "b", "mod/param", "t", "model.onnx.data", "a b", "w\u00e9"]) + f"_{i}",
             "dtype": dtype, "shape": shape, "kind": kind, "where": where,
             "fill": rng.u64() & 0xFFFFFFFF,
             "as_input": where == "main" and rng.chance(0.1),
             "used": rng.chance(0.7),
+            "as_output": where == "main" and rng.chance(0.08),
+            "meta": rng.chance(0.15),
         }
         if kind == "ext":
             e["ext_file"] = rng.choice(["src0.bin", "src1.bin", "sub/src2.bin"])
@@ -101,16 +105,18 @@ def gen_recipe(rng: Rng, tier: str, idx: int) -> dict:
     if n >= 2 and rng.chance(0.15):
         j = rng.below(n - 1)
         inits[-1]["share_with"] = j
-        inits[-1]["where"] = inits[j]["where"]
+        if rng.chance(0.6):
+            inits[-1]["where"] = inits[j]["where"]  # else: one tensor object under initializers of two different graphs
     n_uninit = rng.weighted([(0, 12), (1, 2), (2, 1)])
     uninit = []
     for u in range(n_uninit):
         uninit.append({"name": f"u_{u}", "pos": rng.below(n + 1),
                        "where": rng.weighted([("main", 5), ("then", 2), ("else", 1), ("loop", 2)])})
-    fname = rng.choice(["model.onnx", "m.onnx", "model.v2.onnx", "net", "a.b.c.onnx", "model.textproto"])
+    fname = rng.choice(["model.onnx", "m.onnx", "model.v2.onnx", "net", "a.b.c.onnx", "model.textproto", "weights.data",
+                        "mod\u00e8le v1.onnx"])
     cfg = {
         "path_type": rng.choice(["str", "pathlib"]),
-        "path_form": rng.choice(["abs", "abs", "rel", "nested"]),
+        "path_form": rng.weighted([("abs", 8), ("rel", 4), ("nested", 4), ("missingdir", 1)]),
         "file_name": fname,
         "verbose": rng.chance(0.3),
         "backend": rng.weighted([("fd", 3), ("nofileno", 2)]),
@@ -202,6 +208,12 @@ def make_tensor(e: dict, sandbox: str):
                               base_dir=sandbox)
     else:
         raise ValueError(kind)
+    if e.get("meta"):
+        try:
+            t.doc_string = f"doc of {name}"
+            t.metadata_props["origin"] = "dsim"
+        except Exception:  # noqa: BLE001 - some tensor classes are read-only
+            pass
     return t, raw
 
 
@@ -302,6 +314,7 @@ def build(recipe: dict, sandbox: str):
         main_nodes.append(n)
         main_outs.append(n.outputs[0])
     inputs = [x, cond] + [v for v, e in graphs["main"] if e.get("as_input")]
+    main_outs = main_outs + [v for v, e in graphs["main"] if e.get("as_output") and not e.get("as_input")]
     g = ir.Graph(inputs, main_outs, nodes=main_nodes, initializers=[v for v, _ in graphs["main"]],
                  opset_imports={"": 21}, name="main_graph")
     model = ir.Model(g, ir_version=10, producer_name="dsim-c20")
